@@ -353,3 +353,209 @@ class ArraySortCustom(LibFn):
 
 
 ARRAY_SORT_CUSTOM = ArraySortCustom()
+
+
+# ---------------------------------------------------------------------------------------------
+# arrayIndexOf / arrayLastIndexOf with a match *function* (C15: the nearest element the function accepts; C09: the
+# callbacks run under the caller's options). The value variant is IndexOf above; the two preconditions are complementary.
+# ---------------------------------------------------------------------------------------------
+MATCHED = _ufun('MATCH_FN_ACCEPTED', Int, Bool)      # ghost: the match function returned a true value in iteration k
+
+
+class IndexOfMatch(LibFn):
+    """arrayIndexOf(array, fn, index) / arrayLastIndexOf(array, fn, index): fn is called once per visited element, with
+    a one-element argument list holding that element and the caller's options, in index order from `index`; the result
+    is the index of the first element it accepts, -1 when every index of the range was visited and none accepted.
+    A failing callback (or one that shrinks the array under the scan) makes the call fail with null."""
+
+    def __init__(self, script_name, qual, model_name, last):
+        super().__init__(script_name, qual, model_name, -1, lambda spx: {'ret': ('any',)})
+        self.last = last
+        from .runtime_c import host_callable_model
+        self.callable_model = host_callable_model
+
+    cache_tag = 'match-function'
+
+    def pre(self, K):
+        spx, valid = self.view(K)
+        return super().pre(K) + [('value-is-a-match-function', is_func(spx.a[1]))]
+
+    def start(self, spx):
+        a = V.lref(spx.a[0])
+        if self.last:
+            return z3.If(is_none(spx.a[2]), spx.h.llen(a) - 1, as_index(spx.a[2]))
+        return as_index(spx.a[2])
+
+    def position(self, spx, k):
+        return self.start(spx) - k if self.last else self.start(spx) + k
+
+    def count(self, spx):
+        """number of indexes in the scanned range"""
+        n = spx.h.llen(V.lref(spx.a[0]))
+        c = self.start(spx) + 1 if self.last else n - self.start(spx)
+        return z3.If(c > 0, c, 0)
+
+    def _protocol(self, K, spx, e, k):
+        at = e['arg_terms']
+        hb = e['heap_before']
+        if len(at) != 2 or at[0] is None or at[1] is None:
+            return z3.BoolVal(False), z3.BoolVal(False)
+        lr = V.lref(at[0])
+        elem = hb.lget(V.lref(spx.a[0]), self.position(spx, k))
+        return (z3.And(is_list(at[0]), hb.llen(lr) == 1, hb.lget(lr, 0) == elem), at[1] == K.term(1))
+
+    def post(self, K, out):
+        spx, valid = self.view(K)
+        n = spx.h.llen(V.lref(spx.a[0]))
+        ok = z3.And(valid, self.start(spx) < n)
+        events = K.ctx.ghost.get('events', [])
+        tag0 = self.qual + '.loop0'
+        begins = [ix for ix, e in enumerate(events) if e.get('kind') == 'loop-body-begin' and e['loop'] == tag0]
+        dones = [e for e in events if e.get('kind') == 'loop-done' and e['loop'] == tag0]
+        calls = [e for e in events if e.get('kind') == 'callable']
+        obs = []
+        if out.kind == 'return':
+            r = K.ctx.to_term(out.value)
+            obs.append(('returns-only-when-valid', ok))
+            if dones:
+                # the scan ran off the end of the range: every index was visited and the function accepted none
+                i = z3.Int('i!iom')
+                obs.append(('C15.minus-one-only-after-the-whole-range-was-refused',
+                            z3.And(r == VInt(z3.IntVal(-1)),
+                                   z3.ForAll([i], z3.Implies(z3.And(i >= 0, i < self.count(spx)), z3.Not(MATCHED(i)))))))
+            elif begins:
+                k = events[begins[-1]]['k']
+                mine = [e for e in events[begins[-1] + 1:] if e.get('kind') == 'callable']
+                if len(mine) == 1 and mine[0].get('outcome') is not None and mine[0]['outcome'].kind == 'return':
+                    e = mine[0]
+                    args_ok, opts_ok = self._protocol(K, spx, e, k)
+                    obs.append(('C15.found-index-is-the-element-the-function-accepted',
+                                z3.And(r == VInt(self.position(spx, k)), k >= 0, k < self.count(spx),
+                                       sp.truthy(e['heap_after'], K.ctx.to_term(e['outcome'].value)))))
+                    obs.append(('C15.match-function-sees-the-visited-element', args_ok))
+                    obs.append(('C09.match-function-runs-under-the-callers-options', opts_ok))
+                else:
+                    obs.append(('C15.found-index-is-the-element-the-function-accepted', z3.BoolVal(False)))
+            else:
+                obs.append(('C15.result-comes-from-the-scan', z3.BoolVal(False)))
+        else:
+            # a failure of a later iteration (k > 0) follows a callback of an earlier one, which may have shrunk the array
+            later = z3.BoolVal(False)
+            if begins and not dones:
+                later = events[begins[-1]]['k'] > 0
+            obs.append(('fails-only-when-invalid-or-in-a-callback', z3.Or(z3.Not(ok), z3.BoolVal(bool(calls)), later)))
+            from_callback = any(e.get('outcome') is not None and e['outcome'].kind == 'raise' and e['outcome'].exc is out.exc
+                                for e in calls)
+            if not from_callback:
+                # the function's own failures carry the documented value (an exception of the match function is
+                # passed on unchanged: the call wrapper turns it into null)
+                # (after a callback has run the array may have shrunk under the scan: that failure is the callback's)
+                obs.append(('failure-value', z3.Or(later, self._failure_value(K, spx, out.exc))))
+        return obs
+
+    @property
+    def loop_specs(self):
+        def inv(L):
+            i = z3.Int('i!iomi')
+            h, g = L.heap, L.heap0
+            return [('none-accepted-so-far', z3.ForAll([i], z3.Implies(z3.And(i >= 0, i < L.k), z3.Not(MATCHED(i))))),
+                    ('index-range', L.k >= 0),
+                    # nothing has run before the first callback: the first iteration sees the heap the loop was entered with
+                    ('first-iteration-sees-the-entry-heap',
+                     z3.Implies(L.k == 0, z3.And(h.LEN == g.LEN, h.ELS == g.ELS, h.HAS == g.HAS, h.VAL == g.VAL, h.NK == g.NK,
+                                                 h.KEY == g.KEY)))]
+
+        def body(L, events):
+            ctx = L.ctx
+            K = ctx.ghost['K']
+            spx, valid = self.view(K)
+            calls = [e for e in events if e.get('kind') == 'callable']
+            if len(calls) != 1 or calls[0].get('outcome') is None or calls[0]['outcome'].kind != 'return':
+                return [('C15.match-function-called-once-per-visited-element', False)]
+            e = calls[0]
+            # ghost definition for this iteration
+            ctx.assume(MATCHED(L.k) == sp.truthy(e['heap_after'], ctx.to_term(e['outcome'].value)))
+            args_ok, opts_ok = self._protocol(K, spx, e, L.k)
+            return [('C15.match-function-sees-the-visited-element', args_ok),
+                    ('C09.match-function-runs-under-the-callers-options', opts_ok)]
+        # loop 0 is the match-function variant, loop 1 the value variant (excluded by the precondition)
+        return {(self.qual, 0): LoopSpec(inv, heap='havoc', body_check=body)}
+
+
+INDEX_OF_MATCH = [
+    IndexOfMatch('arrayIndexOf', 'library._array_index_of', '_ARRAY_INDEX_OF_ARGS', False),
+    IndexOfMatch('arrayLastIndexOf', 'library._array_last_index_of', '_ARRAY_LAST_INDEX_OF_ARGS', True),
+]
+
+
+# ---------------------------------------------------------------------------------------------
+# systemPartial(func, args...): the returned function (C04: the calling convention holds on the path through a partial)
+# ---------------------------------------------------------------------------------------------
+class SystemPartial(LibFn):
+    """systemPartial(func, a1..an) with n >= 1 returns a function value p; every call p(extra, options) calls func
+    exactly once with a *new* argument list a1..an ++ extra (neither the captured list nor `extra` itself: the callee
+    owns its argument list and may normalise it in place) and the options of that call, and returns what func returns.
+    The returned closure is checked by running it, in the post-state, on an arbitrary argument list."""
+
+    def __init__(self):
+        super().__init__('systemPartial', 'library._system_partial', '_SYSTEM_PARTIAL_ARGS', None, lambda spx: {'ret': ('any',)})
+        from .runtime_c import host_callable_model
+        self.callable_model = host_callable_model
+
+    def post(self, K, out):
+        from pyvc.interp import Obj as _Obj, S
+        spx, valid = self.view(K)
+        cnt, els = spx.rest()
+        ok = z3.And(valid, cnt >= 1)
+        if out.kind != 'return':
+            return [('fails-only-when-invalid', z3.Not(ok)), ('failure-value', self._failure_value(K, spx, out.exc)),
+                    ('frame', sp.frame_same(K.heap, K.heap_after, K.heap.alloc, [spx.argsref], []))]
+        obs = [('returns-only-when-valid', ok),
+               ('frame', sp.frame_same(K.heap, K.heap_after, K.heap.alloc, [spx.argsref], []))]
+        p = out.value
+        if not (isinstance(p, _Obj) and p.kind in ('lambda', 'closure')):
+            return obs + [('C04.returns-a-function-value', z3.BoolVal(False))]
+        ctx, ip = K.ctx, K.ip
+        # call the returned function on an arbitrary argument list. One symbolic call stands for every call: the target
+        # always receives a list allocated by that call, so the captured list never escapes and is the same at every call
+        # (ownership of unescaped temporaries, DESIGN.md §7)
+        from pyvc.interp import PyRaise
+        for rnd in (1,):
+            h = ctx.heap
+            extra = ctx.fresh(f'extra{rnd}', Int)
+            opts = ctx.fresh(f'call_options{rnd}', V)
+            from pyvc.core import wf_value
+            ctx.assume(z3.And(extra >= 0, extra < h.alloc, h.llen(extra) >= 0, wf_value(h, opts)))
+            ev0 = len(ctx.ghost.setdefault('events', []))
+            try:
+                res = ip.call(p, [S(VList(extra)), S(opts)], {}, None, None)
+            except PyRaise:
+                res = None      # the target failed: the failure is passed on; the argument protocol is still checked
+            mine = [e for e in ctx.ghost['events'][ev0:] if e.get('kind') == 'callable']
+            if len(mine) != 1 or mine[0]['arg_terms'][0] is None or len(mine[0]['arg_terms']) != 2:
+                obs.append((f'C04.partial-call{rnd}-calls-the-target-exactly-once', z3.BoolVal(False)))
+                continue
+            e = mine[0]
+            hb = e['heap_before']
+            lst = e['arg_terms'][0]
+            lr = V.lref(lst)
+            m = h.llen(extra)
+            i = z3.Int('i!spc')
+            obs.append((f'C04.partial-call{rnd}-passes-bound-then-extra-arguments', z3.And(
+                is_list(lst), hb.llen(lr) == cnt + m,
+                z3.ForAll([i], z3.Implies(z3.And(i >= 0, i < cnt), hb.lget(lr, i) == z3.Select(els, i))),
+                z3.ForAll([i], z3.Implies(z3.And(i >= 0, i < m), hb.lget(lr, cnt + i) == h.lget(extra, i))))))
+            obs.append((f'C04.partial-call{rnd}-passes-a-new-argument-list', lr >= h.alloc))
+            obs.append((f'C04.partial-call{rnd}-passes-the-options-of-the-call', e['arg_terms'][1] == opts))
+            if res is not None:
+                obs.append((f'C04.partial-call{rnd}-returns-the-targets-result',
+                            K.ctx.to_term(res) == K.ctx.to_term(e['outcome'].value)))
+        return obs
+
+
+SYSTEM_PARTIAL = SystemPartial()
+
+import os as _os     # noqa: E402
+with open(_os.path.join(_os.path.dirname(_os.path.dirname(_os.path.abspath(__file__))), 'native', 'witness', 'partial_witness.py'),
+          encoding='utf-8') as _fh:
+    SystemPartial.native_witness = {'C04.partial-call': _fh.read()}
